@@ -180,3 +180,336 @@ Definition CMono_ok : pcfg_ok CMono := atoms_cfg_ok CMono CMono_atoms I.
 
 Lemma mono_of {A} (m : PM A) s a s' : spec CMono m -> m s = POk (a, s') -> (mu s' <= mu s)%nat.
 Proof. intros Hm E. destruct (post_returns _ _ _ _ Hm s I _ _ E) as [_ H]. exact H. Qed.
+(* ---- consumption: with token t current, m takes at least one item *)
+Definition consumes_at {A} (t : prstoken) (m : PM A) : Prop :=
+  forall s a s', ps_cur s = Some t -> m s = POk (a, s') -> (mu s' < mu s)%nat.
+Definition sigtok (t : prstoken) : Prop := p_is_ignored_kind (tok_kind t) = false.
+
+Lemma C_bind1 {A B} t (m : PM A) (f : A -> PM B) :
+  consumes_at t m -> (forall a, spec CMono (f a)) -> consumes_at t (x <- m ;; f x).
+Proof.
+  intros Hm Hf s b s' Hc E. apply bind_ok in E as (a & s1 & E1 & E2).
+  pose proof (Hm _ _ _ Hc E1). pose proof (mono_of _ _ _ _ (Hf a) E2). lia.
+Qed.
+
+(* m does nothing when a token is current and returns v *)
+Lemma C_keepv {A B} t (m : PM A) v (f : A -> PM B) :
+  (forall s, ps_cur s = Some t -> m s = POk (v, s)) -> consumes_at t (f v) -> consumes_at t (x <- m ;; f x).
+Proof.
+  intros Hm Hf s b s' Hc E. unfold p_bind in E. rewrite (Hm s Hc) in E. eapply Hf; eauto.
+Qed.
+
+Lemma peek_token_some t s : ps_cur s = Some t -> p_peek_token s = POk (Some t, s).
+Proof. intros Hc. unfold p_peek_token. rewrite Hc. reflexivity. Qed.
+Lemma peek_some t s : ps_cur s = Some t -> p_peek s = POk (Some (tok_kind t), s).
+Proof. intros Hc. unfold p_peek, p_bind. rewrite (peek_token_some t s Hc). reflexivity. Qed.
+Lemma peek_data_some t s : ps_cur s = Some t -> p_peek_data s = POk (Some (tok_data t), s).
+Proof. intros Hc. unfold p_peek_data, p_bind. rewrite (peek_token_some t s Hc). reflexivity. Qed.
+Lemma peek_is_some k t s : ps_cur s = Some t -> g_peek_is k s = POk (tkind_eqb (tok_kind t) k, s).
+Proof. intros Hc. unfold g_peek_is, p_bind. rewrite (peek_some t s Hc). reflexivity. Qed.
+Lemma peek_in_some ks t s : ps_cur s = Some t -> g_peek_in ks s = POk (existsb (tkind_eqb (tok_kind t)) ks, s).
+Proof. intros Hc. unfold g_peek_in, p_bind. rewrite (peek_some t s Hc). reflexivity. Qed.
+Lemma peek_data_is_some kw t s : ps_cur s = Some t -> g_peek_data_is kw s = POk (p_str_eqb (tok_data t) kw, s).
+Proof. intros Hc. unfold g_peek_data_is, p_bind. rewrite (peek_data_some t s Hc). reflexivity. Qed.
+Lemma current_some t s : ps_cur s = Some t -> p_current s = POk (Some t, s).
+Proof. apply peek_token_some. Qed.
+
+(* ---- the primitives that pop *)
+Lemma push_ignored_keep s u s' : p_push_ignored s = POk (u, s') -> ps_cur s' = ps_cur s /\ ps_items s' = ps_items s.
+Proof. unfold p_push_ignored. destruct (p_push_pending_list _ _); try discriminate. intros [= <- <-]. auto. Qed.
+
+Lemma C_eat t k : consumes_at t (p_eat k).
+Proof.
+  intros s a s' Hc E. unfold p_eat in E. apply bind_ok in E as (u & s1 & E1 & E).
+  apply push_ignored_keep in E1 as [Hc1 Hi1]. rewrite Hc in Hc1.
+  apply bind_ok in E as (o & s2 & E2 & E). rewrite (current_some t s1 Hc1) in E2. injection E2 as <- <-.
+  apply bind_ok in E as (t' & s3 & E3 & E). unfold p_pop in E3. rewrite Hc1 in E3. injection E3 as <- <-.
+  unfold p_push_token, p_modify in E. injection E as _ <-. unfold mu. cbn. rewrite Hi1, Hc. lia.
+Qed.
+
+Lemma C_bump t k : consumes_at t (p_bump k).
+Proof. unfold p_bump. apply C_bind1; [apply C_eat|intros; apply (a_skip_ignored _ CMono_atoms)]. Qed.
+
+Lemma C_err_and_pop t : consumes_at t p_err_and_pop.
+Proof.
+  intros s a s' Hc E. unfold p_err_and_pop in E. apply bind_ok in E as (u & s1 & E1 & E).
+  apply push_ignored_keep in E1 as [Hc1 Hi1]. rewrite Hc in Hc1.
+  apply bind_ok in E as (o & s2 & E2 & E). rewrite (current_some t s1 Hc1) in E2. injection E2 as <- <-.
+  apply bind_ok in E as (t' & s3 & E3 & E). unfold p_pop in E3. rewrite Hc1 in E3. injection E3 as <- <-.
+  apply bind_ok in E as (? & s4 & E4 & E). unfold p_push_token, p_modify in E4. injection E4 as _ <-.
+  apply bind_ok in E as (? & s5 & E5 & E). unfold p_push_err, p_modify in E5. injection E5 as _ <-.
+  pose proof (mono_of _ _ _ _ (a_skip_ignored _ CMono_atoms) E) as Hm.
+  revert Hm. unfold mu. destruct (ps_accept _); cbn; rewrite Hi1, Hc; lia.
+Qed.
+
+Lemma C_expect t k sk : tkind_eqb (tok_kind t) k = true -> consumes_at t (p_expect k sk).
+Proof.
+  intros Hk. unfold p_expect. eapply C_keepv; [apply current_some|].
+  unfold p_at. intros s a s' Hc E. unfold p_bind at 1 in E. unfold p_bind at 1 in E.
+  rewrite (peek_some t s Hc) in E. cbn [p_ret] in E. rewrite Hk in E. eapply C_bump; eauto.
+Qed.
+
+(* start_node leaves a significant current token alone *)
+Lemma start_node_keep k t s u s' :
+  ps_cur s = Some t -> sigtok t -> p_start_node k s = POk (u, s') -> ps_cur s' = Some t /\ mu s' = mu s.
+Proof.
+  intros Hc Hs E. unfold p_start_node in E. apply bind_ok in E as (? & s1 & E1 & E).
+  apply push_ignored_keep in E1 as [Hc1 Hi1].
+  apply bind_ok in E as (? & s2 & E2 & E). unfold p_modify in E2. injection E2 as _ <-.
+  unfold p_skip_ignored in E. cbv zeta in E. cbn [ps_cur ps_set_builder] in E. rewrite Hc1, Hc, Hs in E.
+  injection E as _ <-. unfold mu. cbn. rewrite Hc1, Hi1. auto.
+Qed.
+
+Lemma C_node {A} k t (body : PM A) : sigtok t -> consumes_at t body -> consumes_at t (p_node k body).
+Proof.
+  intros Hs Hb s a s' Hc E. unfold p_node in E. apply bind_ok in E as (? & s1 & E1 & E).
+  destruct (start_node_keep _ _ _ _ _ Hc Hs E1) as [Hc1 Hm1].
+  apply bind_ok in E as (r & s2 & E2 & E). pose proof (Hb _ _ _ Hc1 E2) as H2.
+  apply bind_ok in E as (? & s3 & E3 & E). unfold p_ret in E. injection E as _ <-.
+  pose proof (mono_of _ _ _ _ (a_finish_node _ CMono_atoms) E3). lia.
+Qed.
+
+(* err does not touch the lexer side *)
+Lemma err_keep t s u s' : ps_cur s = Some t -> p_err s = POk (u, s') -> ps_cur s' = Some t /\ mu s' = mu s.
+Proof.
+  intros Hc E. unfold p_err, p_bind in E. rewrite (current_some t s Hc) in E.
+  unfold p_push_err, p_modify in E. injection E as _ <-. unfold mu. destruct (ps_accept s); cbn; rewrite Hc; auto.
+Qed.
+Ltac mono_tail := let H := fresh "H" in pose proof CMono_ok as H; intros; gfull.
+
+(* ---- productions that consume *)
+Lemma validate_name_cases t n s u s' :
+  ps_cur s = Some t -> g_validate_name n s = POk (u, s') -> s' = s \/ (mu s' < mu s)%nat.
+Proof.
+  intros Hc E. unfold g_validate_name in E. apply bind_ok in E as (? & s1 & E1 & E).
+  destruct (negb _); cbn [p_when] in E1.
+  - right. pose proof (C_err_and_pop t _ _ _ Hc E1) as H1.
+    assert (Hm : (mu s' <= mu s1)%nat).
+    { destruct (2 <=? blen n); [|unfold p_ret in E; injection E as _ <-; lia].
+      destruct n as [|c r]; [unfold p_ret in E; injection E as _ <-; lia|].
+      destruct (u8len c =? 1); [|discriminate].
+      destruct (negb _); cbn [p_when] in E.
+      - eapply mono_of; [apply (d_err_and_pop _ CMono_atoms)|exact E].
+      - unfold p_ret in E. injection E as _ <-. lia. }
+    lia.
+  - unfold p_ret in E1. injection E1 as _ <-.
+    destruct (2 <=? blen n); [|unfold p_ret in E; injection E as _ <-; auto].
+    destruct n as [|c r]; [unfold p_ret in E; injection E as _ <-; auto|].
+    destruct (u8len c =? 1); [|discriminate].
+    destruct (negb _); cbn [p_when] in E.
+    + right. eapply C_err_and_pop; eauto.
+    + unfold p_ret in E. injection E as _ <-. auto.
+Qed.
+
+Lemma C_name t : tok_kind t = TkName -> consumes_at t g_name.
+Proof.
+  intros Hk. unfold g_name. eapply C_keepv; [apply peek_token_some|]. cbv beta iota.
+  rewrite Hk. cbn [tkind_eqb]. apply C_node; [unfold sigtok; rewrite Hk; reflexivity|].
+  intros s a s' Hc E. apply bind_ok in E as (? & s1 & E1 & E).
+  destruct (validate_name_cases t _ _ _ _ Hc E1) as [->|Hlt].
+  - eapply C_bump; eauto.
+  - pose proof (mono_of _ _ _ _ (d_bump _ CMono_atoms SK_IDENT) E). lia.
+Qed.
+
+Lemma C_description t : sigtok t -> consumes_at t g_description.
+Proof. intros Hs. unfold g_description. apply C_node; auto. apply C_node; auto. apply C_bump. Qed.
+
+Lemma C_variable t : sigtok t -> consumes_at t g_variable.
+Proof.
+  intros Hs. unfold g_variable. apply C_node; auto.
+  apply (C_bind1 t (p_bump SK_DOLLAR) (fun _ => g_name)); [apply C_bump|intros; apply (d_name _ CMono_atoms)].
+Qed.
+
+Lemma C_alias t : tok_kind t = TkName -> consumes_at t g_alias.
+Proof.
+  intros Hk. unfold g_alias. apply C_node; [unfold sigtok; rewrite Hk; reflexivity|].
+  apply (C_bind1 t g_name (fun _ => p_bump SK_COLON)); [apply C_name; exact Hk|intros; apply (d_bump _ CMono_atoms)].
+Qed.
+
+Lemma C_operation_type t : sigtok t -> consumes_at t g_operation_type.
+Proof.
+  intros Hs. unfold g_operation_type. eapply C_keepv; [apply peek_data_some|]. cbv beta iota.
+  apply C_node; auto.
+  destruct (p_str_eqb _ _); [apply C_bump|]. destruct (p_str_eqb _ _); [apply C_bump|].
+  destruct (p_str_eqb _ _); [apply C_bump|apply C_err_and_pop].
+Qed.
+
+Lemma C_err_then {A} t (m : PM A) : consumes_at t m -> consumes_at t (p_err ;; m).
+Proof.
+  intros Hm s a s' Hc E. apply bind_ok in E as (? & s1 & E1 & E).
+  destruct (err_keep t _ _ _ Hc E1) as [Hc1 Hm1]. pose proof (Hm _ _ _ Hc1 E). lia.
+Qed.
+
+Lemma C_enum_value t : tok_kind t = TkName -> consumes_at t g_enum_value.
+Proof.
+  intros Hk. unfold g_enum_value. apply C_node; [unfold sigtok; rewrite Hk; reflexivity|].
+  eapply C_keepv; [apply peek_token_some|]. cbv beta iota. rewrite Hk. cbn [tkind_eqb].
+  destruct (_ || _); cbn [p_when].
+  - apply C_err_then. apply C_name. exact Hk.
+  - intros s a s' Hc E. unfold p_bind, p_ret in E. eapply C_name; eauto.
+Qed.
+
+Lemma C_named_type t : tok_kind t = TkName -> consumes_at t g_named_type.
+Proof.
+  intros Hk. unfold g_named_type. eapply C_keepv; [apply (peek_is_some TkName)|]. cbv beta iota. rewrite Hk. cbn [tkind_eqb p_when].
+  apply C_node; [unfold sigtok; rewrite Hk; reflexivity|apply C_name; exact Hk].
+Qed.
+Lemma sig_of_kind t k : tok_kind t = k -> p_is_ignored_kind k = false -> sigtok t.
+Proof. intros <- H. exact H. Qed.
+
+(* first step consumes, the rest only needs to be monotone: the rest is proved by the generic traversal *)
+Ltac c_first lem :=
+  match goal with
+  | |- consumes_at ?t (p_bind ?m ?f) => apply (C_bind1 t m f); [lem|mono_tail]
+  end.
+
+Lemma C_argument t fuel c : tok_kind t = TkName -> consumes_at t (g_argument fuel c).
+Proof.
+  intros Hk. unfold g_argument. apply C_node; [eapply sig_of_kind; eauto|].
+  c_first ltac:(apply C_name; exact Hk).
+Qed.
+
+Lemma C_directive t fuel c : tok_kind t = TkAt -> consumes_at t (g_directive fuel c).
+Proof.
+  intros Hk. unfold g_directive. apply C_node; [eapply sig_of_kind; eauto|].
+  c_first ltac:(apply C_expect; rewrite Hk; reflexivity).
+Qed.
+
+Lemma C_if_peek_false {B} t k (m : PM unit) (f : unit -> PM B) :
+  tkind_eqb (tok_kind t) k = false -> consumes_at t (f tt) -> consumes_at t (x <- g_if_peek k m ;; f x).
+Proof.
+  intros Hk Hf. eapply C_keepv; [|exact Hf]. intros s Hc. unfold g_if_peek, p_bind.
+  rewrite (peek_is_some k t s Hc), Hk. reflexivity.
+Qed.
+Lemma C_if_peek_true {B} t k (m : PM unit) (f : unit -> PM B) :
+  tkind_eqb (tok_kind t) k = true -> consumes_at t m -> (forall a, spec CMono (f a)) ->
+  consumes_at t (x <- g_if_peek k m ;; f x).
+Proof.
+  intros Hk Hm Hf. apply C_bind1; [|exact Hf].
+  unfold g_if_peek. eapply C_keepv; [apply (peek_is_some k)|]. rewrite Hk. exact Hm.
+Qed.
+
+(* description? then name: consumes on Name and on StringValue *)
+Lemma C_desc_name {B} t (f : unit -> PM B) :
+  tok_kind t = TkName \/ tok_kind t = TkStringValue -> (forall a, spec CMono (f a)) ->
+  consumes_at t (g_if_peek TkStringValue g_description ;; x <- g_name ;; f x).
+Proof.
+  intros [Hk|Hk] Hf.
+  - apply C_if_peek_false; [rewrite Hk; reflexivity|]. apply C_bind1; [apply C_name; exact Hk|exact Hf].
+  - apply C_if_peek_true; [rewrite Hk; reflexivity|apply C_description; eapply sig_of_kind; eauto|].
+    intros ?. pose proof CMono_ok as H. eapply post_bind; [apply CMono_rel|apply (ok_name _ H)|exact Hf].
+Qed.
+
+Lemma sig_name_or_string t : tok_kind t = TkName \/ tok_kind t = TkStringValue -> sigtok t.
+Proof. intros [H|H]; eapply sig_of_kind; eauto. Qed.
+
+Lemma C_input_value_definition t fuel :
+  tok_kind t = TkName \/ tok_kind t = TkStringValue -> consumes_at t (g_input_value_definition fuel).
+Proof.
+  intros Hk. unfold g_input_value_definition. apply C_node; [apply sig_name_or_string; exact Hk|].
+  apply C_desc_name; [exact Hk|mono_tail].
+Qed.
+
+Lemma C_field_definition t fuel :
+  tok_kind t = TkName \/ tok_kind t = TkStringValue -> consumes_at t (g_field_definition fuel).
+Proof.
+  intros Hk. unfold g_field_definition. apply C_node; [apply sig_name_or_string; exact Hk|].
+  apply C_desc_name; [exact Hk|mono_tail].
+Qed.
+
+Lemma C_enum_value_definition t fuel :
+  tok_kind t = TkName \/ tok_kind t = TkStringValue -> consumes_at t (g_enum_value_definition fuel).
+Proof.
+  intros Hk. unfold g_enum_value_definition. eapply C_keepv; [apply (peek_in_some [TkName; TkStringValue])|].
+  assert (Hb : existsb (tkind_eqb (tok_kind t)) [TkName; TkStringValue] = true) by (destruct Hk as [-> | ->]; reflexivity).
+  rewrite Hb. cbn [p_when]. apply C_node; [apply sig_name_or_string; exact Hk|].
+  destruct Hk as [Hk|Hk].
+  - apply C_if_peek_false; [rewrite Hk; reflexivity|]. c_first ltac:(apply C_enum_value; exact Hk).
+  - apply C_if_peek_true; [rewrite Hk; reflexivity|apply C_description; eapply sig_of_kind; eauto|mono_tail].
+Qed.
+
+Lemma C_variable_definition t fuel : sigtok t -> consumes_at t (g_variable_definition fuel).
+Proof.
+  intros Hs. unfold g_variable_definition. apply C_node; auto. c_first ltac:(apply C_variable; exact Hs).
+Qed.
+
+Lemma C_root_operation_type_definition t : sigtok t -> consumes_at t g_root_operation_type_definition.
+Proof.
+  intros Hs. unfold g_root_operation_type_definition. apply C_node; auto.
+  c_first ltac:(apply C_operation_type; exact Hs).
+Qed.
+
+Lemma C_object_field_ t value c :
+  (forall c p, spec CMono (value c p)) -> tok_kind t = TkName -> consumes_at t (g_object_field_ value c).
+Proof.
+  intros Hv Hk. unfold g_object_field_. apply C_node; [eapply sig_of_kind; eauto|].
+  apply C_bind1; [apply C_name; exact Hk|]. intros ?. pose proof CMono_ok as H. gfull.
+Qed.
+
+Lemma C_fragment_spread t fuel : sigtok t -> consumes_at t (g_fragment_spread fuel).
+Proof. intros Hs. unfold g_fragment_spread. apply C_node; auto. c_first ltac:(apply C_bump). Qed.
+
+Lemma C_inline_fragment_ t ss fuel : spec CMono ss -> sigtok t -> consumes_at t (g_inline_fragment_ ss fuel).
+Proof.
+  intros Hss Hs. unfold g_inline_fragment_. apply C_node; auto.
+  apply C_bind1; [apply C_bump|]. intros ?. pose proof CMono_ok as H. gfull.
+Qed.
+
+Lemma C_field_ t ss fuel : spec CMono ss -> tok_kind t = TkName -> consumes_at t (g_field_ ss fuel).
+Proof.
+  intros Hss Hk. unfold g_field_. apply C_node; [eapply sig_of_kind; eauto|].
+  eapply C_keepv; [apply (peek_is_some TkName)|]. rewrite Hk. cbn [tkind_eqb].
+  apply C_bind1; [|intros ?; pose proof CMono_ok as H; gfull].
+  intros s a s' Hc E. apply bind_ok in E as (n2 & s1 & E1 & E).
+  assert (s1 = s) as -> by (unfold p_peek_n, p_bind, p_peek_n_inner, p_ret in E1; injection E1 as _ <-; reflexivity).
+  apply bind_ok in E as (? & s2 & E2 & E).
+  destruct (match n2 with Some TkColon => true | _ => false end); cbn [p_when] in E2.
+  - pose proof (C_alias t Hk _ _ _ Hc E2). pose proof (mono_of _ _ _ _ (d_name _ CMono_atoms) E). lia.
+  - unfold p_ret in E2. injection E2 as _ <-. eapply C_name; eauto.
+Qed.
+(* value(p, constness, pop_on_error = true) consumes whatever significant token is current *)
+Lemma C_value_body t value fuel c :
+  (forall c p, spec CMono (value c p)) -> sigtok t -> consumes_at t (g_value_body value fuel c true).
+Proof.
+  intros Hv Hs. unfold g_value_body. eapply C_keepv; [apply peek_some|].
+  destruct (tok_kind t) eqn:Hk; cbv beta iota;
+    try (unfold g_error_or_pop; apply C_err_and_pop);
+    try (apply C_node; [exact Hs|apply C_bump]).
+  - (* $ *)
+    destruct c.
+    + apply (C_bind1 t (g_error_or_pop true) (fun _ => g_variable)); [apply C_err_and_pop|].
+      intros ?. pose proof CMono_ok as H. gfull.
+    + intros s a s' Hc E. unfold p_bind, p_ret in E. eapply C_variable; eauto.
+  - (* [ *)
+    unfold g_list_value_. apply C_node; [exact Hs|].
+    apply C_bind1; [apply C_bump|]. intros ?. pose proof CMono_ok as H. gfull.
+  - (* { *)
+    unfold g_object_value_. apply C_node; [exact Hs|].
+    apply C_bind1; [apply C_bump|]. intros ?. pose proof CMono_ok as H.
+    assert (Hf : spec CMono (g_object_field_ value c)) by (apply gg_object_field_; auto). gfull.
+  - (* Name *)
+    eapply C_keepv; [apply peek_token_some|]. cbv beta iota.
+    destruct (p_str_eqb _ _); [apply C_node; [exact Hs|apply C_bump]|].
+    destruct (p_str_eqb _ _); [apply C_node; [exact Hs|apply C_bump]|].
+    destruct (p_str_eqb _ _); [apply C_node; [exact Hs|apply C_bump]|].
+    apply C_enum_value. exact Hk.
+Qed.
+
+Lemma C_value t fuel c : sigtok t -> consumes_at t (g_value fuel c true).
+Proof.
+  intros Hs. destruct fuel as [|f]; cbn [g_value].
+  - intros s a s' _ E. discriminate.
+  - apply C_value_body; [|exact Hs]. intros c0 p. apply (gg_value CMono CMono_ok).
+Qed.
+
+(* parse_separated_list's loop body *)
+Lemma C_sep_body t sk (run : PM unit) : spec CMono run -> consumes_at t (p_bump sk ;; run).
+Proof. intros Hr. apply (C_bind1 t (p_bump sk) (fun _ => run)); [apply C_bump|auto]. Qed.
+
+(* the arms of selection's loop *)
+Lemma rec_check_keep s b s' :
+  p_rec_check_and_increment s = POk (b, s') -> ps_cur s' = ps_cur s /\ mu s' = mu s.
+Proof.
+  unfold p_rec_check_and_increment. destruct (ptracker_check_and_increment _) as [[b0 t0]| |]; try discriminate.
+  intros [= <- <-]. auto.
+Qed.
